@@ -78,6 +78,13 @@ pub fn well_formed(ctx: &Ctx, rng: &mut Rng, max_size: usize) -> WellFormed {
     if rng.chance(1, 40) {
         return WellFormed { text: deep_program(rng), name: "deep-nesting".into(), prog: None, layout: None, seed_width: None };
     }
+    well_formed_shallow(ctx, rng, max_size)
+}
+
+/// as `well_formed`, without the deeply nested routines: base material for mutation, splicing and
+/// truncation (mutated 30-40 level programs are the known finding C04/deep-nesting-invalid-slow and
+/// cost minutes each; C04's thorough tier has a segment for them)
+pub fn well_formed_shallow(ctx: &Ctx, rng: &mut Rng, max_size: usize) -> WellFormed {
     if !ctx.seeds.is_empty() && rng.chance(2, 5) {
         let mut s = rng.pick(&ctx.seeds);
         // a few data tests exercise lexically broken code (unterminated literals/comments,
@@ -118,20 +125,20 @@ pub fn any_input(ctx: &Ctx, rng: &mut Rng) -> (String, &'static str) {
     match rng.below(10) {
         0..=2 => (well_formed(ctx, rng, 25).text, "well-formed"),
         3..=4 => {
-            let w = well_formed(ctx, rng, 15);
+            let w = well_formed_shallow(ctx, rng, 15);
             (soup::mutate(rng, &w.text), "mutated")
         }
         5 => {
-            let a = well_formed(ctx, rng, 10).text;
-            let b = well_formed(ctx, rng, 10).text;
-            let c = well_formed(ctx, rng, 10).text;
+            let a = well_formed_shallow(ctx, rng, 10).text;
+            let b = well_formed_shallow(ctx, rng, 10).text;
+            let c = well_formed_shallow(ctx, rng, 10).text;
             (soup::splice(rng, &[&a, &b, &c]), "spliced")
         }
         6..=7 => (soup::random_seq(rng, 40), "token-soup"),
         8 => (soup::byte_soup(rng, 200), "byte-soup"),
         _ => {
             // truncated well-formed program
-            let w = well_formed(ctx, rng, 15).text;
+            let w = well_formed_shallow(ctx, rng, 15).text;
             let mut cut = rng.below(w.len() + 1);
             while !w.is_char_boundary(cut) {
                 cut -= 1;
